@@ -109,13 +109,14 @@ pub fn create_fasta_and_vcf(
         .expect("Error writing VCF header");
 
         for (pos, reference_base, vec_chars) in vcf_records {
-            let alt_bases: Vec<char> = vec_chars
+            let mut alt_bases: Vec<char> = vec_chars
                 .iter()
                 .cloned()
                 .filter(|&c| c != reference_base && c != '-' && c != 'N')
                 .collect::<HashSet<_>>() // deduplicate alternative bases
                 .into_iter()
                 .collect();
+            alt_bases.sort_unstable(); // fixed ALT order
 
             let genotypes: Vec<String> = vec_chars
                 .iter()
